@@ -1,4 +1,5 @@
 #!/bin/bash
+export VERIF_EVIDENCE_DIR=${VERIF_EVIDENCE_DIR:-/tmp/verif-evidence-scratch}; mkdir -p "$VERIF_EVIDENCE_DIR"
 # tools/seedcheck.sh <worktree> <seed-id> <property> <demo-dest-relative-path> <demo go test args...>
 # 1. copies <worktree>/SEED into /verif/seeded/<seed-id>/   2. confirms the seeded change independently in a scratch worktree
 # (patch applies to /repo HEAD, existing suite green, demo red with / green without)   3. runs ./check <property> against it
